@@ -49,3 +49,13 @@ Theorem C11_one_unknown_key_invalidates_the_task : forall a b k, key_ok k = fals
 Proof. exact unknown_key_invalidates. Qed.
 Theorem C11_one_invalid_entry_invalidates_the_file : forall a b t, valid_task t = false -> valid_file (a ++ t :: b) = false.
 Proof. exact invalid_entry_invalidates_file. Qed.
+
+(* K53 / K54 (fixed): a `when` / `changed_when` that cannot be read, a `check_mode` that is not a boolean, refuse the task and
+   the file - they are never taken for "no condition" / "false" *)
+Theorem C11_unreadable_keyword_value_invalidates_the_task : forall t tv,
+  cond_ok (v_when tv) = false \/ cond_ok (v_changed_when tv) = false \/ flag_ok (v_check_mode tv) = false ->
+  valid_entry t tv = false.
+Proof. exact unreadable_condition_invalidates. Qed.
+Theorem C11_invalid_values_invalidate_the_file : forall a b t tv,
+  valid_entry t tv = false -> valid_entries (a ++ (t, tv) :: b) = false.
+Proof. exact invalid_values_invalidate_file. Qed.
